@@ -30,14 +30,9 @@ func decoderEntries(c *Ctx) []*ssa.Function {
 	return out
 }
 
-func rulesC11(c *Ctx, r *Report) {
-	r.explain("Decides, for all code reachable from the decoder entries (fasta/fastq/sam/bed/newick Reader, sam.ReaderHeader, smtext.ReadNCBI): (GRD) every constant, sentinel-based or length-bounded index, slice and make is within bounds on every path, from the guards that dominate it (linear length algebra, predicate summaries, inductive stack-depth bounds); computed indices the prover cannot bound are listed as not covered; (PANIC) every explicit panic reachable from a decoder is discharged — the parser-state panic by showing no state value reaches it, parseInts' length panic by its single call site, regexp.MustCompile by compiling its constant pattern; no unchecked type assertion, non-constant integer divisor or write to a possibly-nil map is reachable; (B0) in every reachable function of the codec packages, no error returned by any call (strconv, hex, the package's own parsers, …) is dropped: it is returned, yielded or wrapped on every path; (CONV) no integer-to-string conversion (string(b) is two bytes for b >= 0x80, the parser demands one); (YD4) in sam.ReaderHeader a line's parse error is yielded and, if the consumer continues, the next line is read with no second item for that line; (A4, G2, G3) the fixed-point structure shared with C03/C04/C05: no un-quoting layer under a raw writer, every tag type the reader produces is written back to a text that reads as the same type with inverse value codecs, every special byte of the Newick tokenizer is protected by the writer. Not decided: termination; panics behind indices the prover lists as not covered; nil dereferences; the fixed-point equality itself. Added rules shared with other properties: DIST0/END, SCAN-ALIAS, NUM-WIDTH, G2-SPLIT, LINE-WHOLE, the FASTA automaton, TOK and PARSE for Newick, the SAM parser column table, MAKE-APPEND, YD1 for every codec iterator; E-GRD knows strings/bytes.Index* results, discharges sentinels only on the goal's own symbol, eliminates phi edges ruled out by a dominating != test, and checks make capacities. Writer side shared from C03/C04: (SAM-COL/FMT-CONST/1L) SAM.Write prints the 11 mandatory columns from their own fields with the verbs the parser inverts (%d of an int, not an unsigned rendering); (G4a) BED.Write prints, for every N, exactly the first N fields themselves (no substituted defaults). Also shared: the FASTA writer rules (W-HDR, W80, FMT-CONST) — every accepted FASTA record is written whole, last line included.")
-	r.assume("standard library functions do not panic on the arguments the decoders give them; strconv/hex report malformed input through their error result")
-	entries := decoderEntries(c)
-	if len(entries) < 7 {
-		r.undecided("GRD", "decoders", "anchor", "", fmt.Sprintf("only %d of 7 decoder entries found", len(entries)))
-	}
-	reach := c.reachFrom(entries, c.inScope)
+// decoderFuncs: the functions in scope that the decoder entries reach (aio excluded), sorted, with the paths.
+func decoderFuncs(c *Ctx) ([]*ssa.Function, map[*ssa.Function][]string) {
+	reach := c.reachFrom(decoderEntries(c), c.inScope)
 	var funcs []*ssa.Function
 	for f := range reach {
 		if f.Blocks == nil || !c.inScope(f) {
@@ -50,9 +45,40 @@ func rulesC11(c *Ctx, r *Report) {
 		funcs = append(funcs, f)
 	}
 	sort.Slice(funcs, func(i, j int) bool { return fname(funcs[i]) < fname(funcs[j]) })
+	return funcs, reach
+}
+
+func rulesC11(c *Ctx, r *Report) {
+	r.explain("Decides, for all code reachable from the decoder entries (fasta/fastq/sam/bed/newick Reader, sam.ReaderHeader, smtext.ReadNCBI): (GRD) every constant, sentinel-based or length-bounded index, slice and make is within bounds on every path, from the guards that dominate it (linear length algebra, predicate summaries, inductive stack-depth bounds); computed indices the prover cannot bound are listed as not covered; (PANIC) every explicit panic reachable from a decoder is discharged — the parser-state panic by showing no state value reaches it, parseInts' length panic by its single call site, regexp.MustCompile by compiling its constant pattern; no unchecked type assertion, non-constant integer divisor or write to a possibly-nil map is reachable; (B0) in every reachable function of the codec packages, no error returned by any call (strconv, hex, the package's own parsers, …) is dropped: it is returned, yielded or wrapped on every path; (CONV) no integer-to-string conversion (string(b) is two bytes for b >= 0x80, the parser demands one); (YD4) in sam.ReaderHeader a line's parse error is yielded and, if the consumer continues, the next line is read with no second item for that line; (A4, G2, G3) the fixed-point structure shared with C03/C04/C05: no un-quoting layer under a raw writer, every tag type the reader produces is written back to a text that reads as the same type with inverse value codecs, every special byte of the Newick tokenizer is protected by the writer. Not decided: termination; panics behind indices the prover lists as not covered; nil dereferences; the fixed-point equality itself. Added rules shared with other properties: DIST0/END, SCAN-ALIAS, NUM-WIDTH, G2-SPLIT, LINE-WHOLE, the FASTA automaton, TOK and PARSE for Newick, the SAM parser column table, MAKE-APPEND, YD1 for every codec iterator; E-GRD knows strings/bytes.Index* results, discharges sentinels only on the goal's own symbol, eliminates phi edges ruled out by a dominating != test, and checks make capacities. Writer side shared from C03/C04: (SAM-COL/FMT-CONST/1L) SAM.Write prints the 11 mandatory columns from their own fields with the verbs the parser inverts (%d of an int, not an unsigned rendering); (G4a) BED.Write prints, for every N, exactly the first N fields themselves (no substituted defaults). Also shared: the FASTA writer rules (W-HDR, W80, FMT-CONST) — every accepted FASTA record is written whole, last line included.")
+	r.assume("standard library functions do not panic on the arguments the decoders give them; strconv/hex report malformed input through their error result")
+	entries := decoderEntries(c)
+	if len(entries) < 7 {
+		r.undecided("GRD", "decoders", "anchor", "", fmt.Sprintf("only %d of 7 decoder entries found", len(entries)))
+	}
+	funcs, reach := decoderFuncs(c)
 	r.Extra["decoder_reachable_functions"] = len(funcs)
 	rulesGrdFuncs(c, r, funcs, 120, "bounds goals proven in decoder-reachable functions (hand-confirmed sites: sam.parseLine 11 columns + line[11:] + snm.At{1,3,4,7,8}, parseInts p[i], splitTag, parseTags parts[2][0], fastq name[0]/name[1:], bed 12 padded columns, ItemRGB[i], BlockSizes/Starts[i], smtext row[0]/valStrs[0]/valStrs[1:]/chars[i]/s[0], newick stack tops, quoted/nameFromText)")
 	rulesPanics(c, r, funcs, reach)
+	{
+		// ACYCLIC: no function of the module that a decoder reaches is on a call-graph cycle — a decoder that
+		// recurses per line, token or nesting level exhausts the goroutine stack on a long enough input, which is a
+		// fatal error, not even a panic
+		var cyc []string
+		nMod := 0
+		for _, f := range funcs {
+			if !c.inModule(f) {
+				continue
+			}
+			nMod++
+			sub := c.reachFrom(calleesOf(c, f), c.inScope)
+			if _, ok := sub[f]; ok {
+				cyc = append(cyc, fname(f))
+			}
+		}
+		sort.Strings(cyc)
+		r.check(len(cyc) == 0, "ACYCLIC", "formats/*", "decoders do not recurse", "", fmt.Sprintf("none of the %d module functions reachable from the decoder entries can reach itself: stack depth does not grow with the input", nMod),
+			"decoder functions recurse ("+strings.Join(cyc, ", ")+"): a long enough input (many blank lines, deep nesting) exhausts the goroutine stack — a fatal error instead of a result")
+	}
 	rulesNoDroppedErrors(c, r, funcs, 30)
 	rulesPassThroughErrors(c, r)
 	rulesNoIntToString(c, r)
@@ -311,6 +337,11 @@ func rulesNoDroppedErrors(c *Ctx, r *Report, funcs []*ssa.Function, floor int) {
 		terms := e.terms(f)
 		keys := termKeys(terms)
 		for _, t := range terms {
+			// `defer func() { f.Close() }()` is `defer f.Close()`: the result of a deferred call is discarded by the
+			// language, and what closing an input reports says nothing about the records read
+			if t.call != nil && isCloseCall(t.call) && onlyDeferred(f) {
+				continue
+			}
 			n++
 			findings, _ := e.analyze(f, t)
 			pos := ""
@@ -341,6 +372,37 @@ func rulesNoDroppedErrors(c *Ctx, r *Report, funcs []*ssa.Function, floor int) {
 		}
 		return hits
 	})
+}
+
+// isCloseCall: a call of a method named Close.
+func isCloseCall(cl ssa.CallInstruction) bool {
+	cc := cl.Common()
+	if cc.IsInvoke() {
+		return cc.Method.Name() == "Close"
+	}
+	g := cc.StaticCallee()
+	return g != nil && g.Signature.Recv() != nil && g.Name() == "Close"
+}
+
+// onlyDeferred: f is a function literal whose only use is to be deferred where it is created.
+func onlyDeferred(f *ssa.Function) bool {
+	if f.Parent() == nil {
+		return false
+	}
+	n, ok := 0, true
+	instrs(f.Parent(), func(in ssa.Instruction) {
+		mc, isMc := in.(*ssa.MakeClosure)
+		if !isMc || mc.Fn != ssa.Value(f) {
+			return
+		}
+		n++
+		for _, ref := range *mc.Referrers() {
+			if d, isDefer := ref.(*ssa.Defer); !isDefer || d.Call.Value != ssa.Value(mc) {
+				ok = false
+			}
+		}
+	})
+	return n == 1 && ok
 }
 
 // detectIntToString: Convert from an integer-kinded type to string with a non-constant operand.
